@@ -53,6 +53,10 @@ CHECKS = {
   text="Partial evaluation of the segment dispatcher per PathSegmentTypes member (routing, exhaustiveness, unfiltered relay), sibling agreement of the required/optional drivers and the public entry points (same generator, same argument roles, depth+1, relay), separator non-interference, XOR truth table of every match test and the haystack/yield table of the search handler per container branch, two-sided index bounds. Decides the structural clauses for all inputs; the extensional equality of the selected node set with the reference semantics is declined.",
   note="Trusted base: generator relay semantics; the parser stores the term objects for SEARCH/KEYWORD_SEARCH/COLLECTOR segments (C08).",
   technique="partial evaluation per enum member + sibling-agreement and table rules over the AST; truth-table evaluation"),
+ "C13": dict(
+  text="Keyword dispatcher specialised per PathSearchKeywords member; per-branch summaries of the max/min scans (operator, operand roles, discard-before-reset, ties, inversion) compared with the definitions and with each other; unique's size predicates evaluated over group sizes 0..4 by the partial evaluator; distinct's first-of-group; group keying; has_child's XOR match tests; parent's bounded climb behind the root refusal; name's parentref; parameter-count refusals evaluated over counts 0..3. Which members win for given values is run-time and declined.",
+  note="Trusted base: Searches.search_matches implements the operators (C12); dict insertion order.",
+  technique="partial evaluation per enum member + scan-loop summarisation and sibling comparison + small-domain predicate evaluation"),
 }
 
 NOT_BUILT = "check not built yet (framework under construction; will be claimed at clause level per DESIGN.md)"
